@@ -46,9 +46,24 @@ def _p(vals, key):
     if key == "wholearray2x2" and not hasattr(vals["P"], "shape"):
         return dict(vals, P=[[vals["P"][0][0], vals["P"][0][1]], [5.0, 6.0]])
     return vals
-EVENTS = ["dumps", "read", "graph", "call1", "call2", "call1b", "call1n", "mutcaller", "dumpsI0", "graphI0", "graphI1", "match0", "match1",
+EVENTS = ["dumps", "read", "graph", "mutgraph", "call1", "call2", "call1b", "call1n", "mutcaller", "dumpsI0", "graphI0", "graphI1", "match0", "match1",
           "mut0:arg", "mut0:list", "mut0:arr", "mut0:opt", "mut0:op", "mut0:gate", "mut0:var", "mut0:modes", "mut0:rrt", "mut1:arg", "mut1:arr"]
 MAXINST = 3
+
+
+def graph_canon(p):
+    """what to_DiGraph shows of the program (a third way of observing it, next to dumps and the attributes)"""
+    from blackbird.utils import to_DiGraph
+    try:
+        g = to_DiGraph(copy_ops_guard(p))
+        return (tuple(sorted((n, str(d.get("name")), observe.canon(list(d.get("args", []))), observe.canon(dict(d.get("kwargs", {}))), tuple(d.get("modes", ()))) for n, d in g.nodes(data=True))),
+                tuple(sorted(g.edges())))
+    except Exception as e:  # noqa
+        return ("graph-exc", type(e).__name__)
+
+
+def copy_ops_guard(p):
+    return p
 
 
 def digest(p):
@@ -59,7 +74,7 @@ def digest(p):
         c = observe.prog_canon(p, exact=True, variables=True, argskey=True)
     except Exception as e:  # noqa
         c = ("canon-exc", type(e).__name__)
-    return hashlib.sha1(repr((txt, c)).encode()).hexdigest()[:16]
+    return hashlib.sha1(repr((txt, c, graph_canon(p))).encode()).hexdigest()[:16]
 
 
 def explain(p):
@@ -101,6 +116,20 @@ def apply_event(T, inst, ev, key=None, caller=None):
             _ = (o.get("args"), o.get("kwargs"), o["modes"], o["op"])
     elif ev == "graph":
         to_DiGraph(T)
+    elif ev == "mutgraph":
+        # the caller works on a graph it was given: node data are edited in place (returned objects are the caller's)
+        # Only data that can belong to the graph alone are touched: the argument containers of nodes whose operation
+        # has no `args` key (the program holds no container they could be a view of) and the graph's own structure.
+        # Node data that are the program's own lists (a view, like program.operations itself) are left alone.
+        g = to_DiGraph(T)
+        for n, d in g.nodes(data=True):
+            if "args" not in T.operations[n]:
+                if isinstance(d.get("args"), list):
+                    d["args"].append(99)
+                if isinstance(d.get("kwargs"), dict):
+                    d["kwargs"]["zz"] = 1
+        g.add_edge(0, 0)
+        g.add_node(77, name="extra")
     elif ev in ("call1", "call1b"):
         inst.append(T(**pvals(T, _p(V1, key))))
     elif ev == "call2":
@@ -167,6 +196,14 @@ def apply_event(T, inst, ev, key=None, caller=None):
     return None
 
 
+def _evkind(ev, kind):
+    if ev == "mutgraph":
+        return "editing-a-returned-graph"
+    if ev == "mutcaller":
+        return "the-caller-editing-its-own-array"
+    return kind if not ev.startswith("mut") else "mutating-an-instance"
+
+
 def build(key, hist):
     """replay `hist` on fresh objects; returns (state digests, violations of the LAST event, ninst, is_template)"""
     st, T = common.loads(PROGS[key])
@@ -199,14 +236,14 @@ def build(key, hist):
             aI = [digest(i) for i in inst]
             kind = ev.split(":")[0].rstrip("0123456789").replace("I", "")
             if cdig() != bC and touched != "caller":
-                viol.append(("C13/%s-changes-the-callers-array" % (kind if not ev.startswith("mut") else "mutating-an-instance"),
+                viol.append(("C13/%s-changes-the-callers-array" % _evkind(ev, kind),
                              "event %s after %r changed the array the caller had passed as a parameter value: %s -> %s" % (ev, hist[:-1], bC, cdig())))
             if aT != bT:
-                viol.append(("C13/%s-changes-the-program" % (kind if not ev.startswith("mut") else "mutating-an-instance"),
+                viol.append(("C13/%s-changes-the-program" % _evkind(ev, kind),
                              "event %s after %r changed the template/program: before %s ;; after %s" % (ev, hist[:-1], expl_before[:400], explain(T)[:400])))
             for k, (b, a) in enumerate(zip(bI, aI)):
                 if b != a and k != touched:
-                    viol.append(("C13/%s-changes-another-instance" % (kind if not ev.startswith("mut") else "mutating-an-instance"),
+                    viol.append(("C13/%s-changes-another-instance" % _evkind(ev, kind),
                                  "event %s after %r changed instance %d: %s" % (ev, hist[:-1], k, explain(inst[k])[:300])))
     state = (digest(T),) + tuple(digest(i) for i in inst) + ((cdig(),) if caller is not None else ())
     return state, viol, len(inst), is_t
@@ -267,7 +304,7 @@ def run(ctx):
                    "BFS over event sequences to the stated depth with de-duplication on the state; every transition replays its whole history on freshly loaded objects",
            "exhaustive": not cap_hit}
     return {"coverage": cov, "violations": V.records(),
-            "assumptions": ["for templates with an array-valued parameter the caller's own ndarray (one object, passed to every `call1n`, modified by `mutcaller`) is part of the state", "mutations of the returned dependency graph are not events (the property speaks of programs and instances)", "the digest observes programs through their public attributes and dumps()"]}
+            "assumptions": ["the digest observes a program through dumps(), its public attributes and to_DiGraph(); `mutgraph` edits a returned graph in place - its structure and the argument containers of nodes whose operation has no args key (node data that are the program's own lists are a view of the program, like program.operations, and are not touched)", "for templates with an array-valued parameter the caller's own ndarray (one object, passed to every `call1n`, modified by `mutcaller`) is part of the state", "the digest observes programs through their public attributes and dumps()"]}
 
 
 def hist_ninst(h):
